@@ -66,6 +66,15 @@ CLAIMED["C13"] = ("Proof of the gNMI Set orchestration over an abstract tree: De
     "(C10/C12, reflection), JSON payload merge semantics, UnmarshalNotifications (atomic handling) and which operations are skipped under "
     "best-effort unmarshalling.", "5 (C13)", "")
 
+CLAIMED["C22"] = ("Proof of the comparison performed by gnmidiff.DiffSetRequest over abstract intents: the intent of a SetRequest (deleted paths, "
+    "leaf updates) is an uninterpreted function of (request, schema) produced by minimalSetRequestIntent (schema walk and JSON flattening: assumed contract, "
+    "fresh maps); DiffSetRequest is then proved, for all intents of any size and every map iteration order, to partition exactly: CommonDeletes = A.D & B.D, "
+    "MissingDeletes = A.D \\ B.D, ExtraDeletes = B.D \\ A.D; every update path of A or B lands in exactly one of Common (both, DeepEqual, A's value), "
+    "Mismatched (both, not DeepEqual, values in A/B order), Missing (only A) and Extra (only B); an error is returned iff one of the intents cannot be built. "
+    "Lemmas over the postcondition: diff(a,a) has nothing missing, extra or mismatched; swapping arguments swaps missing/extra and A/B. reflect.DeepEqual is "
+    "assumed reflexive and symmetric. Not covered: that requests with the same intent (JSON vs leaf updates, prefix splits, reordering) normalise to equal "
+    "intents - minimalSetRequestIntent, flattenOCJSON and the path-string functions are outside this check.", "5 (C22)", "")
+
 NA = {
     "C01": "RFC7951 JSON round-trip is a relation between two reflection walkers (structJSON/jsonValue vs unmarshalStruct/unmarshalList) over arbitrary generated struct types; no function-level contract within this verifier's reach carries it (no reflect memory model). Scalar kernels are decided under C18/C19 where claimed.",
     "C02": "gNMI notification round-trip lives in the reflection walkers (findUpdatedLeaves, retrieveNode); not expressible as contracts the VC generator can check.",
